@@ -290,6 +290,12 @@ def struct_configs(tier):
                 if feats[0] == 1 and k > 1 and all(f == 1 for f in feats):
                     continue  # all-ones is the all-zeros case with an unused column 0: keep one of each kind
                 out.append(dict(kind="struct", shape=shape_str(s), feats=list(feats)))
+    # history: the same estimator object is refitted (tree_ replaced) with another tree of the SAME
+    # node count but another layout; the utilities must describe the tree it holds now
+    for c in out:
+        k = len(c["feats"])
+        ss = [shape_str(x) for x in shapes(k)]
+        c["shape2"] = ss[(ss.index(c["shape"]) + 1) % len(ss)]
     return out
 
 
@@ -331,6 +337,17 @@ def run_struct(cfg):
                 e.prove(inbox == (app == leaf) if sx.is_sym(app) else inbox == sx.SymBool(z3.BoolVal(app == leaf)), "tree_node_range", detail=leaf)
             got = ts.predict_leaves(model, [x])
             e.prove_eq(int(got[0]), app, "predict_leaves")
+            if cfg.get("shape2") and cfg["shape2"] != cfg["shape"]:
+                tree2 = build(parse_shape(cfg["shape2"]), feats, ths, py_tree_add_node, PyTree())
+                tree2.children_left = numpy.array(tree2.children_left)
+                tree2.children_right = numpy.array(tree2.children_right)
+                tree2.feature = numpy.array(tree2.feature)
+                tree2.threshold = sx.sarr(tree2.threshold)
+                model.tree_ = tree2  # refit of the same object
+                got2 = ts.predict_leaves(model, [x])
+                e.prove_eq(int(got2[0]), tree2.leaf_term(x), "predict_leaves/after-refit")
+                l2 = ts.tree_leave_index(model)
+                e.prove(list(l2) == [i for i in range(tree2.node_count) if tree2.children_left[i] == -1], "tree_leave_index/after-refit")
         finally:
             ts.numpy = old
 
@@ -367,6 +384,10 @@ def _real_tree(cfg, ths):
     shape = parse_shape(cfg["shape"])
     tree = Tree(2, numpy.array([1], dtype=numpy.intp), 1)
     build(shape, cfg["feats"], ths, tdm.tree_add_node, tree)
+    def depth(sh):
+        return 0 if sh is None else 1 + max(depth(sh[0]), depth(sh[1]))
+
+    tree.max_depth = depth(shape)  # _add_node does not maintain it; decision_path sizes its buffers with it
     cl = DecisionTreeRegressor()
     cl.tree_ = tree
     cl.tree_.value[:, 0, 0] = numpy.arange(tree.node_count, dtype=numpy.float64)
@@ -397,6 +418,14 @@ def replay_struct(cfg, inputs, label):
         if not numpy.array_equal(pl, app):
             i = int(numpy.nonzero(pl != app)[0][0])
             return True, dict(x=X[i].tolist(), predict_leaves=int(pl[i]), apply=int(app[i]), thresholds=ths)
+        if cfg.get("shape2") and cfg["shape2"] != cfg["shape"]:
+            cl2, _ = _real_tree(dict(cfg, shape=cfg["shape2"]), ths)
+            cl.tree_ = cl2.tree_  # the same estimator object now holds another tree
+            pl2, app2 = ts.predict_leaves(cl, X), cl2.apply(X)
+            if not numpy.array_equal(pl2, app2):
+                i = int(numpy.nonzero(pl2 != app2)[0][0])
+                return True, dict(history="predict_leaves, refit same object (same node count), predict_leaves", x=X[i].tolist(), predict_leaves=int(pl2[i]), apply=int(app2[i]), shapes=[cfg["shape"], cfg["shape2"]])
+            cl, _ = _real_tree(cfg, ths)
         for leaf in want:
             ra = ts.tree_node_range(cl, leaf)
             inbox = numpy.ones(len(X), dtype=bool)
